@@ -66,6 +66,78 @@ class RecWriter:
         return ("RecWriter", id(self))
 
 
+class RecWriterLen(RecWriter):
+    """a writer that is also a collection of the parts it received: len() == 0, hence falsy, before the first part"""
+
+    def __len__(self):
+        return len(self.calls)
+
+
+class FileLogWriter:
+    """picklable writer whose state lives in a directory: usable from other processes (dask 'processes' scheduler)"""
+
+    def __init__(self, root, min_write, min_part, max_part):
+        self.root, self._mw, self._mp, self._xp = root, min_write, min_part, max_part
+
+    def __call__(self, part, data):
+        import uuid
+        with open(os.path.join(self.root, f"part-{int(part):08d}-{uuid.uuid4().hex}.bin"), "wb") as f:
+            f.write(bytes(data))
+        return {"PartNumber": part}
+
+    def finalise(self, parts):
+        import json as _json
+        import uuid
+        with open(os.path.join(self.root, f"final-{uuid.uuid4().hex}.json"), "w", encoding="utf8") as f:
+            _json.dump([p["PartNumber"] for p in parts], f)
+        return "done"
+
+    min_write_sz = property(lambda s: s._mw)
+    max_write_sz = property(lambda s: 1 << 40)
+    min_part = property(lambda s: s._mp)
+    max_part = property(lambda s: s._xp)
+
+    def collect(self):
+        """-> RecWriter-like view of what reached the directory"""
+        import json as _json
+        v = RecWriter(self._mw, self._mp, self._xp)
+        finals = []
+        for fn in sorted(os.listdir(self.root)):
+            if fn.startswith("part-"):
+                with open(os.path.join(self.root, fn), "rb") as f:
+                    v.calls.append((int(fn.split("-")[1]), f.read()))
+            elif fn.startswith("final-"):
+                with open(os.path.join(self.root, fn), encoding="utf8") as f:
+                    finals.append(_json.load(f))
+        v.final = finals[0] if len(finals) == 1 else (None if not finals else ["finalised-%d-times" % len(finals)])
+        return v
+
+
+def _hdr_cb(n, obs):
+    return hdr_bytes(n)
+
+
+def _ftr_cb(n, obs):
+    return ftr_bytes(n)
+
+
+TRANSPORTS = ("none", "pickle", "deepcopy", "copy")
+
+
+def transport(obj, kind: int):
+    """how an intermediate result travels between two tasks: by reference (threads), pickled (process / distributed
+    schedulers), or copied"""
+    import copy
+    import pickle
+    if kind == 1:
+        return pickle.loads(pickle.dumps(obj))
+    if kind == 2:
+        return copy.deepcopy(obj)
+    if kind == 3:
+        return copy.copy(obj)
+    return obj
+
+
 # ------------------------------------------------------------------ trees
 def all_trees(k: int):
     """all binary trees with k leaves, as nested tuples of leaf indices"""
@@ -171,7 +243,7 @@ def parse_case(line: str) -> Case:
 
 
 # ------------------------------------------------------------------ real code: direct drive along the tree
-def real_direct(case: Case, mutable: bool = False, shared=None, containers: int = 0):
+def real_direct(case: Case, mutable: bool = False, shared=None, containers: int = 0, tkind: int = 0, wkind: int = 0):
     """returns (output string, info dict for the oracle).
 
     mutable: chunk / header / footer payloads are bytearrays (allowed by SomeData); `shared` is a dict that
@@ -191,11 +263,11 @@ def real_direct(case: Case, mutable: bool = False, shared=None, containers: int 
             bufs[key] = (bytearray(bs), bs)
         return bufs[key][0]
 
-    w = RecWriter(case.min_write, case.min_part, case.max_part) if case.has_w else None
+    w = (RecWriterLen if wkind else RecWriter)(case.min_write, case.min_part, case.max_part) if case.has_w else None
     leaves = tree_leaves(case.tree)
     total = len(leaves)
-    min_part = w.min_part if w else 1
-    lhs_keep = w.min_write_sz if w else 0
+    min_part = w.min_part if w is not None else 1
+    lhs_keep = w.min_write_sz if w is not None else 0
     mark_final = case.ftr is None
     state = {"idx": 0, "off": 0, "cid": 0}
 
@@ -215,10 +287,10 @@ def real_direct(case: Case, mutable: bool = False, shared=None, containers: int 
                     else (c for c in chunks))
             mpus = [mpu] if kind in (0, 1) else iter([mpu])
             (out,) = M._mpu_append_chunks_op(mpus, part, write=w, spill_sz=case.spill)
-            return out
+            return transport(out, tkind)
         l = ev(t[1])
         r = ev(t[2])
-        return M._merge_and_spill_op(l, r, write=w, spill_sz=case.spill)
+        return transport(M._merge_and_spill_op(l, r, write=w, spill_sz=case.spill), tkind)
 
     info = {"w": w, "seen": None, "exc": None, "bufs": bufs}
     try:
@@ -293,8 +365,11 @@ def oracle(R: Run, case: Case, out: str, info, via: str):
 
 
 # ------------------------------------------------------------------ real code through dask
-def real_dask(R: Run, case_cfg, partitions_per_sub, split_every, sched, use_mpu_write, gen_parts=False):
-    """Run the real dask graph; returns (Case with the tree dask built, out, info)."""
+def real_dask(R: Run, case_cfg, partitions_per_sub, split_every, sched, use_mpu_write, gen_parts=False, tkind=0, wkind=0):
+    """Run the real dask graph; returns (Case with the tree dask built, out, info).
+
+    tkind: how task results travel to the next task (see `transport`): by reference as under the threaded scheduler,
+    or pickled / copied as under process-based and distributed schedulers."""
     import dask
     import dask.bag
     from dask.delayed import delayed
@@ -302,7 +377,7 @@ def real_dask(R: Run, case_cfg, partitions_per_sub, split_every, sched, use_mpu_
     from .sched import RandomOrderExecutor
 
     has_w, min_write, min_part, max_part, spill, wpc, hdr, ftr = case_cfg
-    w = RecWriter(min_write, min_part, max_part) if has_w else None
+    w = (RecWriterLen if wkind else RecWriter)(min_write, min_part, max_part) if has_w else None
     off = cid = 0
     bags = []
     for sub in partitions_per_sub:
@@ -331,7 +406,7 @@ def real_dask(R: Run, case_cfg, partitions_per_sub, split_every, sched, use_mpu_
         mpus = list(mpus)
         chunks = list(chunks)
         sizes = [len(d) for d, _ in chunks]
-        out = orig_append(mpus, chunks, write=write, spill_sz=spill_sz)
+        out = tuple(transport(o, tkind) for o in orig_append(mpus, chunks, write=write, spill_sz=spill_sz))
         with lock:
             keep.append(out[0])
             trees[id(out[0])] = ("l", sizes)
@@ -340,7 +415,7 @@ def real_dask(R: Run, case_cfg, partitions_per_sub, split_every, sched, use_mpu_
     def t_merge(lhs, rhs, write=None, spill_sz=0):
         with lock:
             tl, tr = trees[id(lhs)], trees[id(rhs)]
-        out = orig_merge(lhs, rhs, write=write, spill_sz=spill_sz)
+        out = transport(orig_merge(lhs, rhs, write=write, spill_sz=spill_sz), tkind)
         with lock:
             keep.append(out)
             trees[id(out)] = ("n", tl, tr)
@@ -351,7 +426,7 @@ def real_dask(R: Run, case_cfg, partitions_per_sub, split_every, sched, use_mpu_
             t = trees[id(substreams[0])]
             for s in substreams[1:]:
                 t = ("n", t, trees[id(s)])
-        out = orig_collate(substreams, write=write, spill_sz=spill_sz)
+        out = transport(orig_collate(substreams, write=write, spill_sz=spill_sz), tkind)
         with lock:
             keep.append(out)
             trees[id(out)] = t
@@ -378,8 +453,8 @@ def real_dask(R: Run, case_cfg, partitions_per_sub, split_every, sched, use_mpu_
             fut = M.mpu_write(bags if len(bags) > 1 else bags[0], w, mk_header=mk_header, mk_footer=mk_footer,
                               writes_per_chunk=wpc, spill_sz=spill)
         else:
-            mp = w.min_part if w else 1
-            lk = w.min_write_sz if w else 0
+            mp = w.min_part if w is not None else 1
+            lk = w.min_write_sz if w is not None else 0
             pid = mp + 1
             dss = []
             for i, b in enumerate(bags):
@@ -423,6 +498,60 @@ def real_dask(R: Run, case_cfg, partitions_per_sub, split_every, sched, use_mpu_
         if pool is not None:
             pool.shutdown(wait=False)
 
+
+
+def real_dask_processes(R: Run, cfg, subs):
+    """The real mpu_write graph under dask's process-based scheduler: every task argument and result is pickled,
+    the writer's state lives in a directory.  Only the property oracle applies (the merge tree is not observable)."""
+    import functools
+    import shutil
+    import tempfile
+    import dask
+    import dask.bag
+    from odc.geo.cog import _mpu as M
+
+    _, min_write, min_part, max_part, spill, wpc, hdr, ftr = cfg
+    root = tempfile.mkdtemp(prefix="c06-proc-")
+    try:
+        w = FileLogWriter(root, min_write, min_part, max_part)
+        off = cid = 0
+        bags = []
+        leaves = []
+        for sub in subs:
+            parts = []
+            for sizes in sub:
+                items = []
+                for sz in sizes:
+                    items.append((payload(off, sz), cid))
+                    off += sz
+                    cid += 1
+                parts.append(items)
+                leaves.append(sizes)
+            bags.append(dask.bag.from_sequence([x for p_ in parts for x in p_], npartitions=len(parts))
+                        if all(len(p_) == len(parts[0]) and len(p_) > 0 for p_ in parts)
+                        else dask.bag.from_delayed([dask.delayed(list)(p_) for p_ in parts]))
+        # from_sequence may repartition: recover the partition sizes dask really uses
+        leaves = []
+        for b in bags:
+            for part in dask.compute(*b.to_delayed(), scheduler="synchronous"):
+                leaves.append([len(d) for d, _ in part])
+        tree = ("l", leaves[0])
+        for l in leaves[1:]:
+            tree = ("n", tree, ("l", l))
+        case = Case(True, min_write, min_part, max_part, spill, wpc, hdr, ftr, tree)
+        info = {"w": None, "seen": case.want_obs(), "exc": None, "cb_seen": []}
+        try:
+            fut = M.mpu_write(bags if len(bags) > 1 else bags[0], w,
+                              mk_header=None if hdr is None else functools.partial(_hdr_cb, hdr),
+                              mk_footer=None if ftr is None else functools.partial(_ftr_cb, ftr),
+                              writes_per_chunk=wpc, spill_sz=spill)
+            fut.compute(scheduler="processes", num_workers=3)
+            info["w"] = w.collect()
+        except Exception as e:  # pylint: disable=broad-except
+            info["exc"] = e
+        oracle(R, case, "", info, "dask:processes")
+    finally:
+        shutil.rmtree(root, ignore_errors=True)
 
 
 def real_dask_pair(R: Run, cfg, subs_a, subs_b, sched):
@@ -600,9 +729,14 @@ def _exhaustive_worker(job):
             continue
         if (k // stride) % nworkers != w:
             continue
-        o, info = real_direct(c, mutable=(k // stride) % 3 == 0, containers=(k * 2654435761) & 0xFFFF)
+        j = k // stride
+        tk = (j // 3) % 6 if (j // 3) % 6 < 4 else 0     # by reference half of the time, else pickled / copied
+        wk = 1 if j % 5 == 2 else 0
+        o, info = real_direct(c, mutable=j % 3 == 0, containers=(k * 2654435761) & 0xFFFF, tkind=tk, wkind=wk)
         lines.append((c.line(), o, sig_of(c, o)))
-        oracle(col, c, o, info, "direct")
+        oracle(col, c, o, info, "direct" + (f":transport={TRANSPORTS[tk]}" if tk else "") + (":writer-with-len" if wk else ""))
+        col.dist[f"transport:{TRANSPORTS[tk]}"] = col.dist.get(f"transport:{TRANSPORTS[tk]}", 0) + 1
+        col.dist[f"writer-kind:{wk}"] = col.dist.get(f"writer-kind:{wk}", 0) + 1
     return lines, col.oracle_failures, col.oracle_evals, col.dist
 
 
@@ -677,9 +811,12 @@ def run(R: Run):
         ftr = rng.choice([None, None, 0, 1, min_write + 3])
         c = Case(has_w, min_write, mp, max_part, spill, wpc, hdr, ftr, random_tree(rng, leaves))
         mutable = rng.random() < 0.4
-        o, info = real_direct(c, mutable=mutable, containers=rng.getrandbits(16))
-        R.corr(c.line(), lambda: o, sig=sig_of(c, o) + ("|bytearray" if mutable else ""))
-        oracle(R, c, o, info, "direct")
+        tk = rng.choice([0, 0, 1, 1, 2, 3])
+        wk = int(rng.random() < 0.25)
+        o, info = real_direct(c, mutable=mutable, containers=rng.getrandbits(16), tkind=tk, wkind=wk)
+        R.corr(c.line(), lambda: o, sig=sig_of(c, o) + ("|bytearray" if mutable else "")
+               + (f"|transport={TRANSPORTS[tk]}" if tk else "") + ("|writer-with-len" if wk else ""))
+        oracle(R, c, o, info, "direct" + (f":transport={TRANSPORTS[tk]}" if tk else "") + (":writer-with-len" if wk else ""))
         if mutable and rng.random() < 0.5:
             # the same buffer objects (chunks, cached header/footer) go through a second upload
             o2, info2 = real_direct(c, mutable=True, shared=info["bufs"])
@@ -708,11 +845,34 @@ def run(R: Run):
         use_mpu_write = rng.random() < 0.5
         split_every = rng.choice([2, 3, 4, 8])
         gen_parts = rng.random() < 0.35
-        case, out, info = real_dask(R, cfg, subs, split_every, sched, use_mpu_write, gen_parts=gen_parts)
-        R.corr(case.line(), lambda: out, sig=f"dask|{sched}|{'mpu_write' if use_mpu_write else f'split{split_every}'}|subs={nsub}"
-               + ("|generator-partitions" if gen_parts else "") + ("|>100-partitions" if total > 100 else ""))
-        oracle(R, case, out, info, f"dask:{sched}")
+        tk = rng.choice([0, 1, 1, 2, 3])
+        wk = int(rng.random() < 0.25)
+        case, out, info = real_dask(R, cfg, subs, split_every, sched, use_mpu_write, gen_parts=gen_parts, tkind=tk, wkind=wk)
+        if wk and nsub > 1:
+            # _mpu_collate_op alone tests the writer's truth value (`if write and spill_sz`): a writer that is still
+            # empty when sub-streams are collated skips that opportunistic spill.  Which parts exist then depends on
+            # how many parts were written before the collate task ran (the schedule) - outside the model, which has
+            # no notion of a writer's truth value; the statement of C06 is evaluated by the oracle all the same
+            R.count("dask-oracle-only:falsy-writer-at-collate")
+        else:
+            R.corr(case.line(), lambda: out, sig=f"dask|{sched}|{'mpu_write' if use_mpu_write else f'split{split_every}'}|subs={nsub}"
+                   + ("|generator-partitions" if gen_parts else "") + ("|>100-partitions" if total > 100 else "")
+                   + (f"|transport={TRANSPORTS[tk]}" if tk else "") + ("|writer-with-len" if wk else ""))
+        oracle(R, case, out, info, f"dask:{sched}" + (f":transport={TRANSPORTS[tk]}" if tk else "") + (":writer-with-len" if wk else ""))
         R.count(f"dask-sched:{sched}")
+        R.count(f"dask-transport:{TRANSPORTS[tk]}")
+    # ---------------- the real graph under the process-based scheduler (everything pickled, writer state on disk)
+    for i in range(R.pick(3, 20)):
+        min_write = rng.choice([4, 10])
+        subs = [[[rng.choice([3, min_write, 2 * min_write + 5, rng.randint(1, 40)]) for _ in range(rng.choice([1, 2, 3]))]
+                 for _ in range(rng.randint(2, 6))] for _ in range(rng.choice([1, 2, 3]))]
+        wpc = rng.choice([1, 2])
+        mp = rng.choice([1, 3])
+        total = sum(len(x) for x in subs)
+        cfg = (True, min_write, mp, mp + total * wpc + 20, rng.choice([1, min_write, 25]), wpc,
+               rng.choice([None, 6]), rng.choice([None, 5]))
+        real_dask_processes(R, cfg, subs)
+        R.count("dask-sched:processes")
     # ---------------- several uploads inside one dask graph (equal options, different destinations / data)
     for i in range(R.pick(12, 90)):
         min_write = rng.choice([4, 10])
